@@ -387,6 +387,19 @@ def fetchTopic (s : Store) (cluster topic : String) : Option (List Int) :=
     | none => none
     | some l => some (l.filterMap fun ring => (ring.get 0).map (·.offset))
 
+/-- what the property asks of the topic view: one entry per partition, `none` where the partition
+    has no offset yet (no leader) -/
+def topicOffsetsByPartition (s : Store) (cluster topic : String) : Option (List (Option Int)) :=
+  match alookup cluster s.clusters with
+  | none => none
+  | some cm => (alookup topic cm.broker).map fun l => l.map fun ring => (ring.get 0).map (·.offset)
+
+/-- a partition without an offset precedes one that has an offset: `fetchTopic`'s positions are shifted -/
+def positionsShifted : List (Option Int) → Bool
+  | [] => false
+  | none :: rest => rest.any Option.isSome || positionsShifted rest
+  | some _ :: rest => positionsShifted rest
+
 abbrev ConsumerTopics := List (String × List Eval.Partition)
 
 /-- inmemory.go:775 `getConsumerTopicList` (before the lag pass: no broker offsets, lag 0) -/
